@@ -484,12 +484,16 @@ def run_c15(ctx):
                 out["health_after"] = health_probe(srv.health, 3, burst=False)
             # job control: the process is stopped and continued (SIGSTOP / SIGCONT interrupt every blocking
             # system call of every worker with EINTR); all workers must still be there and answer afterwards
-            for _ in range(2):
-                os.kill(srv.p.pid, signal.SIGSTOP); time.sleep(0.12)
-                os.kill(srv.p.pid, signal.SIGCONT); time.sleep(0.12)
-            res3 = closed_loop(srv.port, 11, 4, 2)
-            out["answered_after_stop_cont"] = sum(1 for _, _, reps, _ in res3 if len(reps) == 1)
-            out["asked_after_stop_cont"] = len(res3)
+            if srv.p.poll() is None:
+                for _ in range(2):
+                    try:
+                        os.kill(srv.p.pid, signal.SIGSTOP); time.sleep(0.12)
+                        os.kill(srv.p.pid, signal.SIGCONT); time.sleep(0.12)
+                    except ProcessLookupError:
+                        break       # the server is gone: reported below as "did not stay alive"
+                res3 = closed_loop(srv.port, 11, 4, 2)
+                out["answered_after_stop_cont"] = sum(1 for _, _, reps, _ in res3 if len(reps) == 1)
+                out["asked_after_stop_cont"] = len(res3)
             out["alive"] = srv.p.poll() is None
             out["threads_end"] = srv.threads()
         finally:
